@@ -153,7 +153,7 @@ func e1ParserTables(c *Ctx, rule string) {
 			r.Undecided(rule, spec.fn+": switch operand", c.P.pos(f.Pos()), "not found")
 			continue
 		}
-		tab, deflt := switchTable(f, prm)
+		tab, deflt := resolveSwitchTable(f, prm)
 		r.Count(rule+"-cases-"+f.Name(), len(tab))
 		r.Expect(rule+"-cases-"+f.Name(), spec.min)
 		for _, k := range sortedKeys64(tab) {
@@ -208,4 +208,31 @@ func e1ParserTables(c *Ctx, rule string) {
 	}
 	r.Count(rule+"-option-types", n)
 	r.Expect(rule+"-option-types", 30)
+}
+
+// resolveSwitchTable: switchTable of f on prm; when f has no such switch, of the in-module helper that
+// receives prm as an argument (ParseOption → newOptionForCode(code)), up to three levels.
+func resolveSwitchTable(f *ssa.Function, prm ssa.Value) (map[int64]types.Type, types.Type) {
+	tab, deflt := switchTable(f, prm)
+	for depth, cur, curPrm := 0, f, prm; len(tab) == 0 && depth < 3; depth++ {
+		var next *ssa.Function
+		var nextPrm ssa.Value
+		allInstrs(cur, func(in ssa.Instruction) {
+			cl, ok := in.(*ssa.Call)
+			if !ok || cl.Call.StaticCallee() == nil || !inModule(cl.Call.StaticCallee()) || cl.Call.StaticCallee().Blocks == nil {
+				return
+			}
+			for i, a := range cl.Call.Args {
+				if a == curPrm && i < len(cl.Call.StaticCallee().Params) && next == nil {
+					next, nextPrm = cl.Call.StaticCallee(), cl.Call.StaticCallee().Params[i]
+				}
+			}
+		})
+		if next == nil {
+			break
+		}
+		tab, deflt = switchTable(next, nextPrm)
+		cur, curPrm = next, nextPrm
+	}
+	return tab, deflt
 }
